@@ -106,33 +106,25 @@ theorem C06_exhaustive_is_pruned (gt : α → α → Bool) (st : Heap α × Opti
     | cons c cs ih => simp only [map_cons, skipsBelow]; exact ih _
   rw [prunedRun_eq_forEach gt _ st h]; simp [Function.comp_def]
 
-/-
-FULL STATEMENT (not provable for the code as written):
-  theorem C06_merge_offset … (no `hasc`) :
-    mergeTopK gt sel K O fruits = topK (le gt) K O segs.flatten
-`merge_top_k` pushes the per-segment fruits — `into_vec()` / heap order, i.e. *unsorted* —
-into a `TopNComputer`, whose strict threshold is only correct for pushes in ascending address
-order. The proved part assumes that order (`hasc`); see `C06_merge_unsorted_counterexample`.
--/
-/-- `merge_fruits` + offset: if every per-segment fruit has the same best `O+K` as its segment
-(which `C06_topn_computer` / `C06_heap_topk` give) and the concatenated fruits are pushed in
-ascending address order, the result is entries `O .. O+K` of the global order — any number of
-segments. -/
-theorem C06_merge_offset_partial (gt : α → α → Bool) (hgt : StrictWeak gt) (K O : Nat)
-    (sel : List (Entry α) → List (Entry α)) (hsel : SelectNth gt (O + K) sel)
+/-- `merge_top_k` + offset (the code as fixed: all per-segment fruits sorted by `(key desc,
+address asc)`, then `skip(O).take(K)`): if every per-segment fruit has the same best `O+K` as its
+segment (which `C06_topn_computer` / `C06_heap_topk` give), the result is entries `O .. O+K` of
+the global order — any number of segments, the fruits in ANY order (`into_vec()` / heap order).
+Before the fix this needed the fruits in ascending address order and was false without it:
+`C06_merge_unsorted_counterexample`. -/
+theorem C06_merge_offset (gt : α → α → Bool) (hgt : StrictWeak gt) (K O : Nat)
     (fruits segs : List (List (Entry α)))
     (hfr : TopN.Forall₂ (fun f d => (isort (le gt) f).take (O + K) = (isort (le gt) d).take (O + K))
       fruits segs)
-    (hasc : AddrAsc fruits.flatten) (hnd : AddrNodup segs.flatten) :
-    mergeTopK gt sel K O fruits = topK (le gt) K O segs.flatten := by
+    (hndf : AddrNodup fruits.flatten) (hnd : AddrNodup segs.flatten) :
+    mergeTopK gt K O fruits = topK (le gt) K O segs.flatten := by
   unfold mergeTopK
   split
   · rename_i hK; subst hK; simp [topK]
-  · rw [(C06_topn_computer gt hgt (O + K) sel hsel _ hasc).1, topK_zero,
-      takeN_isort_flatten hgt (O + K) hfr hasc.nodup hnd]
+  · have e : ∀ X : List (Entry α), ((isort (le gt) X).drop O).take K = ((isort (le gt) X).take (O + K)).drop O := by
+      intro X; rw [drop_take]; congr 1; omega
     unfold topK
-    rw [drop_take]
-    congr 1; omega
+    rw [e, e, takeN_isort_flatten hgt (O + K) hfr hndf hnd]
 
 /-- associativity of the merge: the best N of a union only depend on the best N of each part,
 whatever the grouping (segments, threads). -/
@@ -164,23 +156,89 @@ theorem C06_topk_perm (gt : α → α → Bool) (hgt : StrictWeak gt) (K O : Nat
   unfold topK
   rw [isort_eq_of_perm (le_totalPreorder hgt) (hn.antisym hgt) hp]
 
-/-- end-to-end model (`Searcher::search` with a generic sort key): per-segment `TopNComputer`,
-`merge_top_k`, offset. Proved under the ascending-fruit hypothesis (see above). -/
-theorem C06_search_partial (gt : α → α → Bool) (hgt : StrictWeak gt) (K O : Nat)
+/-- end-to-end model (`Searcher::search` with a generic sort key): per-segment `TopNComputer`
+(documents pushed in ascending doc id, fruit = `into_vec()`), `merge_top_k`, offset = entries
+`O .. O+K` of the global order. -/
+theorem C06_search (gt : α → α → Bool) (hgt : StrictWeak gt) (K O : Nat)
     (sel : List (Entry α) → List (Entry α)) (hsel : SelectNth gt (O + K) sel)
     (segs : List (List (Entry α))) (hseg : ∀ d, d ∈ segs → AddrAsc d)
-    (hnd : AddrNodup segs.flatten)
-    (hasc : AddrAsc (segs.map (collectSegment gt sel (O + K))).flatten) :
+    (hnd : AddrNodup segs.flatten) :
     search gt sel K O segs = topK (le gt) K O segs.flatten := by
   unfold search
-  apply C06_merge_offset_partial gt hgt K O sel hsel _ segs _ hasc hnd
-  apply forall₂_map_left
-  intro d hd
-  have hinv := inv_pushAll hgt hsel d [] (Computer.new (O + K)) (inv_new gt _)
-    (by simpa using hseg d hd)
-  simp only [nil_append] at hinv
-  unfold collectSegment
-  rw [(intoVec_spec hgt hsel hinv).1, take_take]; simp
+  have hall : TopN.Forall₂ (fun f d => ((isort (le gt) f).take (O + K) = (isort (le gt) d).take (O + K)) ∧
+      (∀ x, x ∈ f → x ∈ d) ∧ AddrNodup f) (segs.map (collectSegment gt sel (O + K))) segs := by
+    apply forall₂_map_left
+    intro d hd
+    have hinv := inv_pushAll hgt hsel d [] (Computer.new (O + K)) (inv_new gt _)
+      (by simpa using hseg d hd)
+    simp only [nil_append] at hinv
+    unfold collectSegment
+    obtain ⟨h1, h2, h3⟩ := intoVec_spec hgt hsel hinv
+    exact ⟨by rw [h1, take_take]; simp, h2, h3⟩
+  exact C06_merge_offset gt hgt K O _ segs (hall.imp fun _ _ h => h.1)
+    (addrNodup_flatten_of_sub (hall.imp fun _ _ h => h.2) hnd) hnd
+
+/-- the live documents of a segment, as entries -/
+def aliveEntries (cs : List (Cand α × Bool)) : List (Entry α) :=
+  ((cs.map (·.1)).filter (·.alive)).map (·.entry)
+
+/-
+FULL STATEMENT (not proved): `C06_search_end_to_end` — the same with `runs` replaced by the real
+drivers: for every segment the run of `Weight::for_each_pruning` (`block_wand_single_scorer`,
+`block_wand`, `block_wand_intersection`, `for_each_pruning_scorer`) on the segment's scorers with
+the `TopNHeap` callback. The link is proved at the level of the drivers' final states
+(`C06_wand_single_skipsBelow`, `C06_wand_union_skipsBelow`: equal to the exhaustive loop for every
+callback with non-decreasing thresholds, GIVEN `UB_max` / `UB_block`), and `C06_threshold_monotone`
+says the `TopNHeap` callback is such a callback; what is not formalised is the translation between
+the two callback vocabularies (`σ × Nat` with integer scores there, `Heap α × Option α` with an
+abstract key here). In the theorem below a driver is therefore represented by WHICH documents it
+skipped, and the bound hypotheses enter as `hskip`.
+-/
+/-- End to end, score path (`TopDocs::order_by_score`, any number of segments, any offset):
+each segment is collected by a pruning driver into a `TopNHeap` of capacity `O+K` — the driver
+scores the candidates in doc order and may skip any document that was not above the threshold
+then or earlier in the run (`hskip`; this is what `UB_max` and `UB_block` buy: the WAND drivers
+skip nothing else, `C06_wand_*_skipsBelow`) —, the fruit is the heap content in ANY order
+(`into_vec()`), and `merge_top_k` with `doc_range = O..O+K` returns exactly entries `O .. O+K` of
+all live documents of all segments in `(score desc, address asc)` order. Composition of
+`C06_pruning_sound_early` (per segment), `C06_merge_offset` (merge + offset). -/
+theorem C06_search_end_to_end_partial (gt : α → α → Bool) (hgt : StrictWeak gt) (K O : Nat)
+    (runs : List (List (Cand α × Bool))) (fruits : List (List (Entry α)))
+    (hasc : ∀ cs, cs ∈ runs → AddrAsc (cs.map (·.1.entry)))
+    (hskip : ∀ cs, cs ∈ runs → skipsBelowEarly gt (Heap.new (O + K), none) [] cs = true)
+    (hfruit : TopN.Forall₂ (fun f cs => f ~ (prunedRun gt (Heap.new (O + K), none) cs).1.heap) fruits runs)
+    (hnd : AddrNodup (runs.map aliveEntries).flatten) :
+    mergeTopK gt K O fruits = topK (le gt) K O (runs.map aliveEntries).flatten := by
+  have hle := le_totalPreorder hgt
+  have hall : TopN.Forall₂ (fun f d => ((isort (le gt) f).take (O + K) = (isort (le gt) d).take (O + K)) ∧
+      (∀ x, x ∈ f → x ∈ d) ∧ AddrNodup f) fruits (runs.map aliveEntries) := by
+    apply TopN.Forall₂.map_right
+    refine hfruit.mem_right.imp ?_
+    intro f cs hfc
+    obtain ⟨hperm, hcs⟩ := hfc
+    · have hheap := C06_pruning_sound_early gt hgt (O + K) cs (hasc cs hcs) (hskip cs hcs)
+      rw [topK_zero] at hheap
+      have halive : AddrNodup (aliveEntries cs) := by
+        have h1 : AddrAsc (cs.map (·.1.entry)) := hasc cs hcs
+        refine (h1.nodup).sublist ?_
+        have : (cs.map (·.1.entry)) = ((cs.map (·.1)).map (·.entry)) := by simp
+        rw [this]
+        exact Sublist.map _ filter_sublist
+      have hheapnd : AddrNodup (prunedRun gt (Heap.new (O + K), none) cs).1.heap := by
+        rw [hheap]
+        exact (halive.perm (isort_perm _).symm).sublist (take_sublist _ _)
+      have hfnd : AddrNodup f := hheapnd.perm hperm.symm
+      refine ⟨?_, ?_, hfnd⟩
+      · rw [isort_eq_of_perm hle (hfnd.antisym hgt) hperm, hheap]
+        show (isort (le gt) ((isort (le gt) (aliveEntries cs)).take (O + K))).take (O + K) = _
+        rw [isort_of_sorted hle ((hheap ▸ hheapnd).antisym hgt) ((isort_sorted hle _).take _), take_take]
+        simp
+      · intro x hx
+        have : x ∈ (prunedRun gt (Heap.new (O + K), none) cs).1.heap := hperm.subset hx
+        rw [hheap] at this
+        exact mem_isort.mp (mem_of_mem_take this)
+  exact C06_merge_offset gt hgt K O fruits _ (hall.imp fun _ _ h => h.1)
+    (addrNodup_flatten_of_sub (hall.imp fun _ _ h => h.2) hnd) hnd
 
 /-- Paging: for exactly comparable keys, the pages `O = 0, K, 2K, …` concatenated are the
 complete ordered result list, which is a permutation of the matches: every match exactly once. -/
@@ -422,17 +480,19 @@ def tieSegs : List (List (Entry Nat)) :=
   [[⟨0, 0⟩, ⟨1, 1⟩, ⟨1, 2⟩, ⟨2, 3⟩, ⟨2, 4⟩], [⟨1, 100⟩, ⟨2, 101⟩],
    [⟨2, 200⟩, ⟨2, 201⟩, ⟨2, 202⟩, ⟨1, 203⟩, ⟨2, 204⟩]]
 
-/-- `C06_merge_offset` / `C06_search` WITHOUT the ascending-fruit hypothesis is FALSE for the
-mechanism as coded: with a `select_nth` that satisfies its contract (`selReversed_selectNth`) the
+/-- WHY `merge_top_k` had to be fixed (finding `C06:merge-ties-unsorted-fruits`, fixed in the
+tree): for the mechanism as coded BEFORE the fix (`searchPushed`: fruits pushed into a
+`TopNComputer`) `C06_search` is FALSE: with a `select_nth` that satisfies its contract (`selReversed_selectNth`) the
 per-segment fruits (`into_vec`, unsorted) are pushed into the merge `TopNComputer` out of address
 order, its strict threshold drops document `200` although it ties with, and precedes, the
 returned document `201`. (Reproduced on the real `Searcher::search`: known finding
 `C06:merge-ties-unsorted-fruits`.) -/
 theorem C06_merge_unsorted_counterexample :
-    search gtNat (selReversed gtNat 4) 3 1 tieSegs = [⟨2, 4⟩, ⟨2, 101⟩, ⟨2, 201⟩] ∧
+    searchPushed gtNat (selReversed gtNat 4) 3 1 tieSegs = [⟨2, 4⟩, ⟨2, 101⟩, ⟨2, 201⟩] ∧
+    search gtNat (selReversed gtNat 4) 3 1 tieSegs = [⟨2, 4⟩, ⟨2, 101⟩, ⟨2, 200⟩] ∧
     topK (le gtNat) 3 1 tieSegs.flatten = [⟨2, 4⟩, ⟨2, 101⟩, ⟨2, 200⟩] ∧
     (∀ d, d ∈ tieSegs → AddrAsc d) ∧ AddrNodup tieSegs.flatten := by
-  refine ⟨by decide, by decide, ?_, ?_⟩
+  refine ⟨by decide, by decide, by decide, ?_, ?_⟩
   · intro d hd
     simp only [tieSegs, mem_cons, not_mem_nil, or_false] at hd
     rcases hd with rfl | rfl | rfl <;> (unfold AddrAsc; decide)
